@@ -32,11 +32,11 @@ PROFILE = {"weights": {"timeout": 4, "zero": 1, "wait": 2, "succeed": 2.5, "fail
 
 
 def plan(tier):
-    return {"shards": 4, "timeout": 300} if tier == "quick" else {"shards": 16, "timeout": 1500}
+    return {"shards": 4, "timeout": 300} if tier == "quick" else {"shards": 16, "timeout": 3400}
 
 
 def ncases(tier):
-    return 6000 if tier == "quick" else 20000
+    return 6000 if tier == "quick" else 60000
 
 
 def mixed_env_probe(ctx):
